@@ -72,7 +72,8 @@ fn main() {
             let prop = get("prop", "C01");
             let tier = get("tier", "quick");
             let thorough = tier == "thorough";
-            let Some(mut def) = props::get(&prop, thorough) else {
+            let found = if a.contains_key("rt") { props::get_rt(&prop, thorough) } else { props::get(&prop, thorough) };
+            let Some(mut def) = found else {
                 eprintln!("unknown property {prop}");
                 std::process::exit(2);
             };
